@@ -72,6 +72,8 @@ pub struct HopObs {
     pub written: Vec<u8>,
     /// plain-tunnel mode: the handshake that was left out on this connection
     pub tunnel: Option<verif_hooks::TunnelInfo>,
+    /// how often a read of this connection met the scripted silence of the peer (= would have waited)
+    pub read_pauses: usize,
 }
 
 impl HopObs {
@@ -599,7 +601,8 @@ fn finish<B: attohttpc::body::Body>(rb: attohttpc::RequestBuilder<B>, case: &Sen
     };
     let s = shared.lock().unwrap();
     for (d, log) in &s.dials {
-        let mut h = HopObs { dial: d.clone(), written: log.lock().unwrap().written.clone(), tunnel: None };
+        let pauses = log.lock().unwrap().events.iter().filter(|e| matches!(e, crate::script::LogEv::ReadPause)).count();
+        let mut h = HopObs { dial: d.clone(), written: log.lock().unwrap().written.clone(), tunnel: None, read_pauses: pauses };
         // a handshake was left out on this connection iff the proxy agreed to the CONNECT: in order
         if case.plain_tunnel && h.split_connect().map_or(false, |(_, after)| !after.is_empty()) {
             h.tunnel = tunnels.next();
